@@ -169,7 +169,7 @@ def delay_menu(dspec, P, t, t0, qdt, ncols, next_slot):
     base = t0 + next_slot * qdt            # earliest pending slot
     targets = [('neg', -0.5 * qdt, 0), ('tiny', 0.01 * qdt, 1),
                ('slot_lo', (base - t) + qdt - 0.3 * qdt, 0), ('slot_hi', (base - t) + qdt + 0.3 * qdt, 1),
-               ('on_slot', (base - t) + 2 * qdt, 1), ('beyond', (horizon - t) + 2.3 * qdt, 1)]
+               ('on_slot', (base - t) + 2 * qdt, 1), ('beyond1', (horizon - t) + 0.8 * qdt, 1), ('beyond', (horizon - t) + 2.3 * qdt, 1)]
     L = []
     if typ == 'gaussian':
         mean, std = val(dspec['mean']), val(dspec['std'])
